@@ -79,7 +79,7 @@ func cfRenderText(_ *cfWorld, eng engine.Engine, text string, nested bool) cfRes
 
 // cfChartFiles are the chart's own files of the .Files probes.
 var cfChartFiles = map[string]string{
-	"a/x.txt": "chart-a-x\nsecond\n",
+	"a/x.txt": "chart-a-x\nsecond",
 	"b.txt":   "chart-b",
 }
 
@@ -202,7 +202,11 @@ type cfFuncCase struct {
 	Atoms []int  `json:"atoms,omitempty"`
 }
 
-var cfAtomNames = []string{"envname", "$env", "${env}", "path", "fileurl", "localhost", "relpath", "host"}
+// The first six atoms are the quick tier; the thorough tier adds a relative
+// path (resolved against the varied working directory), a host name that is
+// not in /etc/hosts, and the integer 1 (so that functions with integer
+// parameters - repeat, trunc, randAlpha, genCA ... - are really invoked).
+var cfAtomNames = []string{"envname", "$env", "${env}", "path", "fileurl", "localhost", "relpath", "host", "int1"}
 
 func cfAtom(w *cfWorld, i int) string {
 	switch i {
@@ -222,8 +226,18 @@ func cfAtom(w *cfWorld, i int) string {
 		return "canary.txt"
 	case 7:
 		return "canary.test"
+	case 8:
+		return "1"
 	}
 	return ""
+}
+
+// cfAtomLit is the atom as a template literal.
+func cfAtomLit(w *cfWorld, i int) string {
+	if cfAtomNames[i] == "int1" {
+		return cfAtom(w, i)
+	}
+	return strconv.Quote(cfAtom(w, i))
 }
 
 func (fc cfFuncCase) canon() string {
@@ -238,7 +252,7 @@ func cfCallText(w *cfWorld, fc cfFuncCase) string {
 	var sb strings.Builder
 	sb.WriteString("{{ " + fc.Func)
 	for _, a := range fc.Atoms {
-		sb.WriteString(" " + strconv.Quote(cfAtom(w, a)))
+		sb.WriteString(" " + cfAtomLit(w, a))
 	}
 	sb.WriteString(" }}")
 	return sb.String()
@@ -253,7 +267,9 @@ func cfImpure(name string) bool {
 		return true
 	}
 	switch name {
+	// random / salted (observed to differ between two renders in one host state: uuidv4 shuffle bcrypt htpasswd encryptAES)
 	case "uuidv4", "shuffle", "bcrypt", "htpasswd", "encryptAES",
+		// read the clock (observed: now date dateInZone date_in_zone; the others of the family only at coarser granularity)
 		"now", "ago", "date", "dateInZone", "date_in_zone", "htmlDate", "htmlDateInZone", "durationRound":
 		return true
 	}
@@ -282,29 +298,59 @@ func cfFuncOutcome(r cfRes) (class string, invoked bool) {
 	return "func:output", true
 }
 
+// cfFuncObs is what one function case showed under the two host states,
+// rendered directly ([.][0]) and inside tpl ([.][1]).
+type cfFuncObs struct {
+	fc    cfFuncCase
+	text  string
+	r     [2][2]cfRes
+	dials int64
+}
+
+// cfFuncExec renders a batch of cases under host state A, then all of them
+// under host state B (switching host state costs system calls, rendering does not).
+func cfFuncExec(w *cfWorld, fcs []cfFuncCase) []cfFuncObs {
+	eng := cfEngine(false)
+	obs := make([]cfFuncObs, len(fcs))
+	for i, fc := range fcs {
+		obs[i].fc, obs[i].text = fc, cfCallText(w, fc)
+	}
+	for hi, h := range [2]cfHost{cfHostA, cfHostB} {
+		w.apply(h)
+		for i := range obs {
+			d0 := w.dials.Load()
+			obs[i].r[hi][0] = cfRenderText(w, eng, obs[i].text, false)
+			obs[i].r[hi][1] = cfRenderText(w, eng, obs[i].text, true)
+			obs[i].dials += w.dials.Load() - d0
+		}
+	}
+	return obs
+}
+
 func cfJudgeFunc(c *core.Ctx, w *cfWorld, fc cfFuncCase) (class string, invoked bool) {
-	text := cfCallText(w, fc)
+	return cfJudgeFuncObs(c, w, cfFuncExec(w, []cfFuncCase{fc})[0])
+}
+
+func cfJudgeFuncObs(c *core.Ctx, w *cfWorld, o cfFuncObs) (class string, invoked bool) {
+	fc, text, r := o.fc, o.text, o.r
 	eng := cfEngine(false)
 	cs := cfCase{Kind: "func", Func: &fc}
 	forms := [2]string{"direct", "inside tpl"}
-	var r [2][2]cfRes
-	d0 := w.dials.Load()
-	for hi, h := range [2]cfHost{cfHostA, cfHostB} {
-		w.apply(h)
-		r[hi][0] = cfRenderText(w, eng, text, false)
-		r[hi][1] = cfRenderText(w, eng, text, true)
-	}
-	if d := w.dials.Load() - d0; d > 0 {
+	if o.dials > 0 {
 		ld, _ := w.lastDial.Load().(string)
-		cfViolate(c, "dns-dial/"+fc.Func, fmt.Sprintf("rendering %s with EnableDNS=false made %d resolver dial(s) (last: %s)", cfShow(w, text), d, ld), cs)
+		cfViolate(c, "dns-dial/"+fc.Func, fmt.Sprintf("rendering %s with EnableDNS=false made %d resolver dial(s) (last: %s)", cfShow(w, text), o.dials, ld), cs)
+	}
+	// One violation per case: the first symptom in the order host-dependent >
+	// leak > nondeterministic names the key, all symptoms go into the text.
+	var key string
+	var symptoms, nondet []string
+	add := func(k, what string) {
+		if key == "" {
+			key = k
+		}
+		symptoms = append(symptoms, what)
 	}
 	for f := 0; f < 2; f++ {
-		for hi := 0; hi < 2; hi++ {
-			if cl := cfLeak(r[hi][f].Out + "\x00" + r[hi][f].Err); cl != "" {
-				cfViolate(c, "leak/"+fc.Func+"/"+cl, fmt.Sprintf("rendering %s (%s) yields host %s: %s", cfShow(w, text), forms[f], cl, r[hi][f]), cs)
-				break
-			}
-		}
 		if cfImpure(fc.Func) || r[0][f] == r[1][f] {
 			continue
 		}
@@ -312,7 +358,7 @@ func cfJudgeFunc(c *core.Ctx, w *cfWorld, fc cfFuncCase) (class string, invoked 
 		w.apply(cfHostA)
 		again := cfRenderText(w, eng, text, f == 1)
 		if again != r[0][f] {
-			cfViolate(c, "nondeterministic/"+fc.Func, fmt.Sprintf("rendering %s (%s) twice under identical host state differs: %s vs %s; the function is not in the declared impure set", cfShow(w, text), forms[f], r[0][f], again), cs)
+			nondet = append(nondet, fmt.Sprintf("%s: two renders under identical host state differ: %s vs %s (the function is not in the declared impure set)", forms[f], r[0][f], again))
 			continue
 		}
 		var comps []string
@@ -328,14 +374,30 @@ func cfJudgeFunc(c *core.Ctx, w *cfWorld, fc cfFuncCase) (class string, invoked 
 		if len(comps) == 0 {
 			comps = []string{"combination"}
 		}
-		cfViolate(c, "host-dependent/"+fc.Func+"/"+strings.Join(comps, "+"),
-			fmt.Sprintf("rendering %s (%s) depends on host %s: %s with one host state, %s with another", cfShow(w, text), forms[f], strings.Join(comps, "+"), r[0][f], r[1][f]), cs)
+		add("host-dependent-"+strings.Join(comps, "+"), fmt.Sprintf("%s: depends on host %s: %s with one host state, %s with another", forms[f], strings.Join(comps, "+"), r[0][f], r[1][f]))
+	}
+	for f := 0; f < 2; f++ {
+		for hi := 0; hi < 2; hi++ {
+			if cl := cfLeak(r[hi][f].Out + "\x00" + r[hi][f].Err); cl != "" {
+				add("leak-"+cl, fmt.Sprintf("%s: result contains host %s: %s", forms[f], cl, r[hi][f]))
+				break
+			}
+		}
+	}
+	for _, n := range nondet {
+		add("nondeterministic", n)
+	}
+	if key != "" {
+		cfViolate(c, "func/"+fc.Func+"/"+key, fmt.Sprintf("rendering %s: %s", cfShow(w, text), strings.Join(symptoms, "; ")), cs)
 	}
 	return cfFuncOutcome(r[0][0])
 }
 
 // cfShow replaces the per-process world root in a text shown to people.
-func cfShow(w *cfWorld, s string) string { return strings.ReplaceAll(s, w.root, "<world>") }
+func cfShow(w *cfWorld, s string) string {
+	s = strings.ReplaceAll(s, w.root, "<world>")
+	return strings.ReplaceAll(s, strings.TrimPrefix(w.root, "/"), "<world-without-leading-slash>")
+}
 
 // cfTuples enumerates all tuples of length n over atoms 0..k-1 in lexicographic order.
 func cfTuples(k, n int) [][]int {
@@ -366,29 +428,40 @@ func cfRunFuncs(c *core.Ctx, w *cfWorld) {
 	live := cfEngineFuncMap()
 	atoms, maxArity := 6, 3
 	if c.Thorough() {
-		atoms = 8
+		atoms = len(cfAtomNames)
 	}
 	c.Bound("confine.funcs.names", strconv.Itoa(len(names)))
 	c.Bound("confine.funcs.live_map", strconv.Itoa(len(live)))
 	c.Bound("confine.funcs.atoms", strings.Join(cfAtomNames[:atoms], ","))
 	c.Bound("confine.funcs.arity", "0-3 for every function, plus the exact arity of every function taking 4-6 arguments over {envname,path}")
 	sampled := 0
+	var batch []cfFuncCase
+	flush := func() {
+		for _, o := range cfFuncExec(w, batch) {
+			class, invoked := cfJudgeFuncObs(c, w, o)
+			c.Outcome(class)
+			if !invoked {
+				continue
+			}
+			c.Distinct("func " + o.fc.canon())
+			if class == "func:output" {
+				c.Floor("confine-func-output")
+				if sampled < 3 {
+					sampled++
+					c.Sample(map[string]any{"part": "confine", "case": o.fc.canon(), "template": cfShow(w, o.text), "class": class, "output": cfClip(cfShow(w, o.r[0][0].Out))})
+				}
+			}
+		}
+		batch = batch[:0]
+	}
 	runCase := func(fc cfFuncCase) {
 		if !c.NextMine() {
 			return
 		}
 		c.Eval(1)
-		class, invoked := cfJudgeFunc(c, w, fc)
-		c.Outcome(class)
-		if invoked {
-			c.Distinct("func " + fc.canon())
-			if class == "func:output" {
-				c.Floor("confine-func-output")
-				if sampled < 3 {
-					sampled++
-					c.Sample(map[string]any{"part": "confine", "case": fc.canon(), "template": cfShow(w, cfCallText(w, fc)), "class": class})
-				}
-			}
+		batch = append(batch, fc)
+		if len(batch) >= 512 {
+			flush()
 		}
 	}
 	for n := 0; n <= maxArity; n++ {
@@ -418,6 +491,7 @@ func cfRunFuncs(c *core.Ctx, w *cfWorld) {
 			runCase(cfFuncCase{Func: name, Atoms: at})
 		}
 	}
+	flush()
 }
 
 // ---------- DNS ----------
@@ -658,23 +732,24 @@ func cfJudgeFiles(c *core.Ctx, w *cfWorld, fc cfFilesCase) string {
 		w.apply(h)
 		r[hi] = cfRenderFiles(w, fc.Source, text, fc.Nested)
 	}
-	bad := false
+	var symptoms []string
+	if r[0] != r[1] {
+		symptoms = append(symptoms, fmt.Sprintf("depends on host state: %s vs %s", r[0], r[1]))
+	}
 	for hi := 0; hi < 2; hi++ {
 		if cl := cfLeak(r[hi].Out + "\x00" + r[hi].Err); cl != "" {
-			cfViolate(c, "files-leak/"+fc.Access+"/"+cl, fmt.Sprintf("%s (chart %s, %s) yields host %s: %s", cfShow(w, text), fc.Source, form, cl, r[hi]), cs)
-			bad = true
+			symptoms = append(symptoms, fmt.Sprintf("result contains host %s: %s", cl, r[hi]))
 			break
 		}
 	}
-	if r[0] != r[1] {
-		cfViolate(c, "files-host-dependent/"+fc.Access, fmt.Sprintf("%s (chart %s, %s) depends on host state: %s vs %s", cfShow(w, text), fc.Source, form, r[0], r[1]), cs)
-		bad = true
-	}
 	if r[0].Err == "" {
 		if ok, why := cfFilesAllowed(own, fc, p, r[0].Out); !ok {
-			cfViolate(c, "files-foreign/"+fc.Access, fmt.Sprintf("%s (chart %s, %s) returns %s: %s", cfShow(w, text), fc.Source, form, why, r[0]), cs)
-			bad = true
+			symptoms = append(symptoms, fmt.Sprintf("returns %s: %s", why, r[0]))
 		}
+	}
+	bad := len(symptoms) > 0
+	if bad {
+		cfViolate(c, "files/"+fc.Access, fmt.Sprintf("%s (chart %s, %s): %s", cfShow(w, text), fc.Source, form, strings.Join(symptoms, "; ")), cs)
 	}
 	switch {
 	case bad:
